@@ -1735,7 +1735,7 @@ func (h *fsHandler) compressFileNolock(
 	if fi, err := os.Stat(compressedFilePath); err == nil {
 		// The copy may also be a leftover made for an older version of the
 		// file (openFSFile doesn't see it when CompressRoot differs from Root).
-		if fileInfo.ModTime().Sub(fi.ModTime()) < time.Second {
+		if !compressedCopyIsStale(fileInfo.ModTime(), fi.ModTime()) {
 			_ = f.Close()
 			return h.newCompressedFSFile(compressedFilePath, fileEncoding)
 		}
@@ -1927,7 +1927,7 @@ func (h *fsHandler) openFSFile(filePath string, mustCompress bool, fileEncoding 
 		// Only re-create the compressed file if there was more than a second between the mod times.
 		// On macOS the gzip seems to truncate the nanoseconds in the mod time causing the original file
 		// to look newer than the gzipped file.
-		if fileInfoOriginal.ModTime().Sub(fileInfo.ModTime()) >= time.Second {
+		if compressedCopyIsStale(fileInfoOriginal.ModTime(), fileInfo.ModTime()) {
 			// The compressed file became stale. Re-create it.
 			_ = f.Close()
 			_ = os.Remove(filePath)
@@ -1936,6 +1936,17 @@ func (h *fsHandler) openFSFile(filePath string, mustCompress bool, fileEncoding 
 	}
 
 	return h.newFSFile(f, fileInfo, mustCompress, filePath, fileEncoding)
+}
+
+// compressedCopyIsStale tells whether a compressed copy stamped with mod time
+// copyTime was made from another version of the file than the one whose mod
+// time is original. The copy gets the original's mod time when it is made;
+// a second of tolerance covers file systems and tools that truncate it. A
+// file that was replaced by an OLDER version (a rollback that keeps mod
+// times) is another version just as well.
+func compressedCopyIsStale(original, copyTime time.Time) bool {
+	d := original.Sub(copyTime)
+	return d >= time.Second || d <= -time.Second
 }
 
 func (h *fsHandler) newFSFile(f fs.File, fileInfo fs.FileInfo, compressed bool, filePath, fileEncoding string) (*fsFile, error) {
